@@ -1,5 +1,7 @@
 import Zog.Msg
 import Zog.Engine
+import Zog.IssueInv
+import Zog.Props.FactsOK
 import Zog.Gen.Tables
 import Zog.Gen.Catalogue
 
@@ -118,5 +120,24 @@ theorem i18n_default_lang (langs : List (String × LangMap)) (dl : String) (code
     (params : List (String × String)) :
     i18nFmt langs dl none code dtype params = defaultFmt ((lookupD langs dl).getD []) code dtype params := by
   simp [i18nFmt]
+
+/-- **Constructor invariants hold of every issue of every execution.** Every issue is built by one
+    of four constructors (failing test / Required / NotNil, coercion failure, callback error,
+    Preprocess error in Validate); whatever holds of all they can build holds of every issue in the
+    result — for every schema, input, mode, visit order, at every depth. -/
+theorem issue_invariants_lift (env : Env) (m : Mode) (P : Issue → Prop) (h : Spec.CtorInv env P)
+    (s : Schema) (tag : Option String) (v : Val) (d : DVal) :
+    ∀ i ∈ (Engine.run env Gen.facts m s tag v d).2.sink, P i := by
+  rw [engine_is_spec]
+  exact Spec.run_inv env m P h s tag v d
+
+/-- **Every issue carries a message** whenever the formatter in force never returns the empty string
+    (which `catalogue_complete_*` / `user_tests_complete_*` establish for the shipped languages on
+    every (type, code) the library and user-coded tests can produce): the test's own message if it has
+    one, else the formatter's. -/
+theorem every_issue_has_a_message (env : Env) (hf : Spec.FmtTotal env) (m : Mode)
+    (s : Schema) (tag : Option String) (v : Val) (d : DVal) :
+    ∀ i ∈ (Engine.run env Gen.facts m s tag v d).2.sink, i.message ≠ "" :=
+  issue_invariants_lift env m _ (Spec.message_ctorInv env hf) s tag v d
 
 end Zog.Props.C11
